@@ -41,6 +41,9 @@ impl RngCore for SymRng {
 #[macro_export]
 macro_rules! c20_range {
     ($name:ident, $unw:expr, $T:ty, $D:ty, $N:expr) => {
+        $crate::c20_range!($name, $unw, $T, $D, $N, any);
+    };
+    ($name:ident, $unw:expr, $T:ty, $D:ty, $N:expr, $gen:ident) => {
         $crate::harness!($name, $unw, {
             use $crate::util::*;
             use rand::Rng;
@@ -48,8 +51,8 @@ macro_rules! c20_range {
             use rand::distributions::uniform::{UniformSampler, SampleUniform};
             const M: usize = $N + 1;
             const S: bool = <$T as BN<$D, $N>>::SIGNED;
-            let (low, ld) = <$T as BN<$D, $N>>::any();
-            let (high, hd) = <$T as BN<$D, $N>>::any();
+            let (low, ld) = <$T as BN<$D, $N>>::$gen();
+            let (high, hd) = <$T as BN<$D, $N>>::$gen();
             let (xl, xh) = (XD::<$D, M>::from_val(&ld, S), XD::<$D, M>::from_val(&hd, S));
             let c = xl.cmp(&xh);
             let sel: u8 = $crate::nd::nd();
